@@ -10,6 +10,8 @@
   Core Lean only.
 -/
 import Cello.Hash
+set_option linter.unusedSimpArgs false
+set_option linter.unusedSimpArgs false
 
 namespace Cello.Hash
 open CelloGen.Hash (SwPtr SwStmt SwBlock)
@@ -416,12 +418,14 @@ theorem swapProg_exchanges (prog : List SwBlock) (hok : swapOk prog = true) (x y
 
 theorem tagBytes_length (side : Bool) (n : Nat) : (tagBytes side n).length = n := by simp [tagBytes]
 
-/-- the two values are of one type and size: plain structs of one probe type holding equally many bytes, or two values
-    that are not plain structs (their struct sizes are read off the first) -/
-def SwapCompatible : Val → Val → Prop
-  | .sc (.raw k bx), .sc (.raw k' by') => k = k' ∧ bx.length = by'.length
-  | .sc (.raw _ _), _ => False
-  | _, .sc (.raw _ _) => False
+/-- the two values are of one type (`sameStruct`: what `swap` tests before it calls `memswap`; anything else raises TypeError) —
+    two scalars of one scalar type, two Arrays, two Lists, two Tuples, two Tables, two Trees — other than Type objects (static
+    tables of instances, not swapped in this engine); two plain structs hold equally many bytes -/
+def SwapCompatible (x y : Val) : Prop :=
+  sameStruct x y = true ∧
+  match x, y with
+  | .sc (.raw _ bx), .sc (.raw _ by') => bx.length = by'.length
+  | .sc (.typ _), _ => False
   | _, _ => True
 
 /-- when `memswap` exchanges equally long byte strings, `swap` exchanges values -/
@@ -433,9 +437,37 @@ theorem swapVals_exchanges
   unfold swapVals
   split
   · rename_i k bx k' by'
-    obtain ⟨rfl, hl⟩ := hc
+    obtain ⟨hs, hl⟩ := hc
+    have hk : k = k' := by simpa [sameStruct, Scalar.ty] using hs
+    subst hk
     rw [hsrc bx by' hl]; rfl
   · dsimp only; rw [htag]; simp
+
+/-- … and `swap`, with its type test in front, is carried out and exchanges them -/
+theorem swapChecked_exchanges
+    (hsrc : ∀ {β : Type} (x y : List β), x.length = y.length → memswapSrc x y = some (y, x))
+    (x y : Val) (hc : SwapCompatible x y) : swapChecked x y = .ok (y, x) := by
+  unfold swapChecked
+  rw [hc.1, swapVals_exchanges hsrc x y hc]; rfl
+
+/-- two values of one type both hold a buffer pointer (String, Tuple) or neither does -/
+theorem sameStruct_hasBuffer (x y : Val) (h : sameStruct x y = true) : x.hasBuffer = y.hasBuffer := by
+  cases x with
+  | sc s =>
+    cases y with
+    | sc t =>
+      have ht : s.ty = t.ty := by simpa [sameStruct] using h
+      cases s <;> cases t <;> first | rfl | (simp [Scalar.ty] at ht) | (rename_i b1 _ b2 _; cases b1 <;> cases b2 <;> simp [Scalar.ty] at ht) | skip
+      all_goals first | rfl | (rename_i b _; cases b <;> simp [Scalar.ty] at ht) | (rename_i b _ _; cases b <;> simp [Scalar.ty] at ht)
+    | _ => simp [sameStruct] at h
+  | seq _ _ _ => cases y <;> first | rfl | simp [sameStruct] at h
+  | tuple _ => cases y <;> first | rfl | simp [sameStruct] at h
+  | table _ _ _ => cases y <;> first | rfl | simp [sameStruct] at h
+  | tree _ _ _ => cases y <;> first | rfl | simp [sameStruct] at h
+
+/-- operands of two different types: `swap` raises TypeError and exchanges nothing -/
+theorem swapChecked_typeError (x y : Val) (h : sameStruct x y = false) : swapChecked x y = .error .typeError := by
+  unfold swapChecked; simp [h]
 
 /-! ## the quicksort of src/Array.c over an element swap that exchanges -/
 
